@@ -71,7 +71,7 @@ THEOREMS = ["ElfioVerif.C01.load_total", "ElfioVerif.C01.load_total_anyStream", 
             "ElfioVerif.Inspect.sym_get_total", "ElfioVerif.Inspect.modinfo_total",
             "ElfioVerif.Inspect.str_sites_total", "ElfioVerif.Inspect.secGetData_settled",
             "ElfioVerif.Inspect.getData_of_settled"]
-SITES = ["conv", "is_sect_in_seg", "load_s", "sec32_load", "sec64_load", "seg32_load", "seg64_load", "validate", "find_prog",
+SITES = ["conv", "is_sect_in_seg", "load_s", "sec32_load", "sec64_load", "seg32_load", "seg64_load", "seg32_range", "seg64_range", "validate", "find_prog",
          "note_walk", "note_get", "note_num", "dyn_num", "dyn_get", "dyn32_get", "dyn64_get", "dynstr_get", "dyn_strtab",
          "sym_num", "sym32_get", "sym64_get", "str_get", "symstr_get", "mod_loop", "mod_rec", "mod_advance", "mod_value",
          "mod_get", "mod_num"]
